@@ -249,8 +249,14 @@ def create_formatted_exception(
             inst = BaseException.__new__(new)
         except TypeError:
             # The class has an allocator of its own, which may require
-            # the arguments (``ExceptionGroup``).
-            inst = cls.__new__(new, *exc.args)
+            # the arguments (``ExceptionGroup``); a class made here
+            # (an exception is wrapped once per nested rendering) hides
+            # it behind the one of ``BaseException``.
+            allocator = next(
+                k.__new__ for k in cls.__mro__
+                if '_original__str__' not in k.__dict__
+            )
+            inst = allocator(new, *exc.args)
 
         BaseException.__init__(inst, *exc.args)
         inst.__dict__ = exc.__dict__  # type: ignore[assignment]
